@@ -42,7 +42,7 @@ def read_tsv(path):
     return rows
 
 
-def run_task(file_text, over, pool=None, data_name='data.csv', keep_dir=False, pool_factory=None, via_cli=False, reset=True):
+def run_task(file_text, over, pool=None, data_name='data.csv', keep_dir=False, pool_factory=None, via_cli=False, reset=True, relative=False):
     """Run the real ranking task on a CSV given as text.  Returns a dict of observations."""
     from outrank import core_ranking as cr
     from outrank import task_ranking as tr
@@ -52,6 +52,10 @@ def run_task(file_text, over, pool=None, data_name='data.csv', keep_dir=False, p
         with open(os.path.join(d, data_name), 'w', encoding='utf-8', newline='') as f:
             f.write(file_text)
         kw = dict(data_path=d, data_source='csv-raw', output_folder=os.path.join(d, 'out'), disable_tqdm='True', num_threads=1)
+        if relative:
+            # the task is started from the data directory with relative paths, as a user at a shell would
+            kw['data_path'] = '.'
+            kw['output_folder'] = 'out'
         kw.update(over)
         args = harness.make_args(**kw)
         if reset:
@@ -186,12 +190,12 @@ def table_to_map(rows, acol, bcol, scol):
     return out
 
 
-def judge_streaming(file_text, over, via_cli=False):
+def judge_streaming(file_text, over, via_cli=False, relative=False):
     """C08 oracle for one file/config.  Returns (fails [(sig,msg)], info dict)."""
     over = dict(over)
     over.setdefault('include_cardinality_in_feature_names', 'False')
     over.setdefault('heuristic', 'MI-numba-randomized')
-    ok, obs = safe(run_task, file_text, over, via_cli=via_cli)
+    ok, obs = safe(run_task, file_text, over, via_cli=via_cli, relative=relative)
     if not ok:
         return [({'kind': 'exception'}, f'ranking task raised {obs}')], {}
     fails = []
